@@ -31,7 +31,7 @@ func init() {
 		Required:      []string{"mode:select", "mode:evaluate", "consume:none", "consume:prefix", "consume:all", "consume:extra", "resume_open_iterator", "cross_document"},
 		Families: []Family{
 			witnessFamily("C04"),
-			{Name: "hist", N: tierN(300000, 4000000), Run: c04History},
+			{Name: "hist", N: tierN(300000, 10000000), Run: c04History},
 		},
 	})
 }
